@@ -172,6 +172,9 @@ def prepare_slice(prop, pi, spec, hdir):
     for out_name, items in spec['slice'].items():
         chunks = []
         for it in items:
+            if 'raw' in it:
+                chunks.append(it['raw'] + '\n')
+                continue
             path = os.path.join(REPO, it['file'])
             if not os.path.exists(path):
                 raise Inconclusive(f"anchor-drift: {it['file']} missing")
@@ -186,6 +189,10 @@ def prepare_slice(prop, pi, spec, hdir):
             for t in texts:
                 if it.get('strip_attrs'):
                     t = re.sub(r'^\s*#\[instrument[^\]]*\]\s*$', '', t, flags=re.M)
+                if it.get('replace'):
+                    if it['replace'][0] not in t:
+                        raise Inconclusive(f"anchor-drift: {it['file']} :: {it['item']}: text to adapt not found")
+                    t = t.replace(it['replace'][0], it['replace'][1])
                 if it.get('wrap'):
                     t = it['wrap'].replace('%ITEM%', t)
                 chunks.append(f"// ---- {it['file']} :: {it['item']}\n{t}\n")
